@@ -549,15 +549,68 @@ func (g *genCtx) genPolicies(o genOpts) []string {
 			}
 		}
 	}
-	quirkProv := false
+	// CUSTOM: the extension providers of the mesh config - one to three entries with DISTINCT targets (kind, service,
+	// port, failure mode, status on error, path prefix) - and the multi-provider feature flag
+	var provNames []string
+	manyProv := false
 	if o.custom && r.Chance(3, 4) {
-		provs := wire.Pick(r, [][]string{{"default"}, {"default", "p2"}, {"p2"}, {}, {"http:default"}, {"default", "http:p2"}})
-		multi := r.Chance(1, 3)
-		if r.Chance(1, 12) {
-			// two providers, one name continuing into the other's policy ids (`default` / `default-ns`), feature on
-			provs, multi, quirkProv = []string{"default", "default-ns"}, true, true
+		good := []string{
+			"default|grpc|foo/authz.foo.svc.cluster.local|9000|0||",
+			"p2|grpc|authz2.bar.svc.cluster.local|9191|1|503|",
+			"h1|http|bar/ext.example.com|8080|0|403|/check",
+			"p3|grpc|foo/ext.example.com|443|0||",
+			"default|http|foo/my-custom-ext-authz.foo.svc.cluster.local|8000|1||",
+			"p2|http|foo/authz.foo.svc.cluster.local|9000|0|401|/",
 		}
-		lines = append(lines, "custom "+wire.EncList(provs)+" "+wire.B(multi))
+		for i := len(good) - 1; i > 0; i-- {
+			j := r.Intn(i + 1)
+			good[i], good[j] = good[j], good[i]
+		}
+		k := 1
+		switch x := r.Intn(100); {
+		case x < 8:
+			k = 0
+		case x < 50:
+		case x < 82:
+			k = 2
+		default:
+			k = 3
+		}
+		var specs []string
+		seen := map[string]bool{}
+		for _, sp := range good {
+			n := strings.SplitN(sp, "|", 2)[0]
+			if len(specs) < k && !seen[n] {
+				seen[n] = true
+				specs = append(specs, sp)
+				provNames = append(provNames, n)
+			}
+		}
+		multi := r.Chance(1, 4)
+		if len(specs) >= 2 {
+			multi, manyProv = r.Chance(3, 5), true
+		}
+		if r.Chance(1, 14) {
+			// two providers, one name continuing into the other's policy ids (`default` / `default-ns`), feature on
+			specs = []string{"default|grpc|foo/authz.foo.svc.cluster.local|9000|0||", "default-ns|grpc|foo/my-custom-ext-authz.foo.svc.cluster.local|9002|0||"}
+			provNames, multi, manyProv = []string{"default", "default-ns"}, true, true
+		}
+		if !g.valid && r.Chance(1, 3) {
+			// entries mesh config validation rejects (processExtensionProvider keeps them with an error: policies naming
+			// them are enforced as DENY): bad port / service / status / path prefix / name, a repeated name
+			bad := wire.Pick(r, []string{
+				"b1|grpc|foo/authz.foo.svc.cluster.local|0|0||", "b1|grpc|foo/authz.foo.svc.cluster.local|70000|0||",
+				"b1|grpc|ext.example.com|9000|0||", "b1|grpc|foo/unknown.foo.svc.cluster.local|9000|0||", "b1|grpc||9000|0||",
+				"b1|grpc|foo/authz.foo.svc.cluster.local|9000|0|abc|", "b1|http|foo/authz.foo.svc.cluster.local|9000|0|299|/x",
+				"b1|http|foo/authz.foo.svc.cluster.local|9000|0||check", "Bad|grpc|foo/authz.foo.svc.cluster.local|9000|0||",
+				"-b|grpc|foo/authz.foo.svc.cluster.local|9000|0||", "|grpc|foo/authz.foo.svc.cluster.local|9000|0||",
+				"default|grpc|authz2.bar.svc.cluster.local|9191|0||", "b1|grpc|foo/authz.foo.svc.cluster.local|9000|0|+403|",
+				"b1|grpc|foo/authz.foo.svc.cluster.local|9000|0|0|", "b1|http|foo/authz.foo.svc.cluster.local|9000|0|-0|/x",
+			})
+			specs = append(specs, bad)
+			provNames = append(provNames, strings.SplitN(bad, "|", 2)[0])
+		}
+		lines = append(lines, "custom "+wire.EncList(specs)+" "+wire.B(multi))
 	}
 	// the workload: root namespace, namespace, labels, proxy type, Gateway API name, waypoint service, flags
 	w := wlGen{root: "istio-system", ns: "foo", labels: []string{"app=httpbin", "version=v1"}, ptype: "sidecar"}
@@ -569,8 +622,8 @@ func (g *genCtx) genPolicies(o genOpts) []string {
 	if r.Chance(1, 6) {
 		np = 4 + r.Intn(2)
 	}
-	if quirkProv && np < 2 {
-		np = 2 + r.Intn(2)
+	if manyProv && np < 2 {
+		np = 2 + r.Intn(3) // several CUSTOM policies with distinct providers
 	}
 	for i := 0; i < np; i++ {
 		action := "ALLOW"
@@ -582,7 +635,7 @@ func (g *genCtx) genPolicies(o genOpts) []string {
 		case x < 52 && o.custom:
 			action = "CUSTOM"
 		}
-		if quirkProv && r.Chance(3, 5) {
+		if manyProv && r.Chance(3, 5) {
 			action = "CUSTOM"
 		}
 		ns := w.ns
@@ -612,12 +665,15 @@ func (g *genCtx) genPolicies(o genOpts) []string {
 		sel := "-"
 		if o.sel && r.Chance(1, 3) {
 			sel = wire.EncList(g.genSelector(w))
+			if r.Chance(1, 12) {
+				sel = wire.Enc("{}") // non-nil empty selector (a validation warning, accepted)
+			}
 		}
 		prov := "~"
 		if action == "CUSTOM" {
 			prov = wire.Pick(r, []string{"default", "default", "default", "p2", "missing"})
-			if quirkProv {
-				prov = wire.Pick(r, []string{"default", "default-ns"})
+			if len(provNames) > 0 && !r.Chance(1, 6) {
+				prov = wire.Pick(r, provNames) // mostly a provider the mesh config defines; else `missing` / another name
 			}
 			if !g.valid && r.Chance(1, 10) {
 				prov = "~"
